@@ -146,7 +146,7 @@ var envEdits = []editDef{
 	{"target-null", "wrong-type", false}, {"target-array", "wrong-type", false}, {"target-string", "wrong-type", false},
 	{"ann-null", "wrong-type", false}, {"ann-array", "wrong-type", false}, {"ann-string", "wrong-type", false}, {"payload-garbage", "wrong-type", false},
 	{"reformat", "benign", false},
-	{"payload-type-wrong", "envelope", false}, {"format-other", "envelope", false}, {"echo-type-wrong", "envelope", false},
+	{"payload-type-wrong", "envelope", false}, {"format-other", "envelope", false}, {"format-other-echoed", "envelope", false}, {"echo-type-wrong", "envelope", false},
 	{"sig-corrupt", "envelope", false}, {"key-mismatch", "envelope", false}, {"chain-empty", "envelope", false}, {"chain-reversed", "envelope", false}, {"envelope-garbage", "envelope", false},
 }
 
@@ -378,11 +378,17 @@ func judge(c *Case, r *result) (string, string) {
 
 func trimStack(s string) string {
 	var keep []string
+	// file:line of the library frames only: argument values and addresses vary between runs and
+	// rapid shrinks only while the failure message stays the same
 	for _, l := range strings.Split(s, "\n") {
-		if strings.Contains(l, "notation-go") || strings.Contains(l, "/repo/") {
-			keep = append(keep, strings.TrimSpace(l))
+		l = strings.TrimSpace(l)
+		if strings.HasPrefix(l, "/repo/") {
+			if i := strings.Index(l, " +0x"); i > 0 {
+				l = l[:i]
+			}
+			keep = append(keep, l)
 		}
-		if len(keep) >= 6 {
+		if len(keep) >= 4 {
 			break
 		}
 	}
